@@ -15,6 +15,7 @@ import (
 	"math"
 	"os"
 	"path/filepath"
+	"sort"
 	"testing"
 	"time"
 
@@ -78,6 +79,10 @@ type Case struct {
 	ReplayActive bool              `json:"replay_active,omitempty"` // … and once more after a restart that replays it
 	Queries      []Query           `json:"queries"`
 	Opts         harness.StoreOpts `json:"opts"`
+	// Resend: every fraction (of at most 2000 documents) arrives in two bulks: the older half
+	// first, then one document of it again together with the newer half, newest first - a client
+	// retry mixed with new documents.  The fraction's time borders must cover the late arrivals.
+	Resend bool `json:"resend,omitempty"`
 }
 
 const (
@@ -220,6 +225,7 @@ func genCase(t *rapid.T) Case {
 		c.Fracs = append(c.Fracs, fr)
 	}
 	c.LastActive = rapid.IntRange(0, 2).Draw(t, "lastactive") != 0
+	c.Resend = rapid.IntRange(0, 3).Draw(t, "resend") == 3
 	if c.LastActive {
 		c.ReplayActive = rapid.IntRange(0, 3).Draw(t, "replayactive") == 3
 	}
@@ -575,6 +581,28 @@ func runCase(c Case) (evid.Result, error) {
 	fracs, corpus := c.materialise(now)
 	r := &runner{c: &c, st: st, fracs: fracs, corpus: corpus, now: now, res: &res}
 	for fi, fs := range fracs {
+		if c.Resend && len(fs.docs) >= 2 && len(fs.docs) <= 2000 {
+			byTime := append([]model.Doc{}, fs.docs...)
+			sort.SliceStable(byTime, func(i, j int) bool { return byTime[i].ID.MID < byTime[j].ID.MID })
+			half := len(byTime) / 2
+			second := []model.Doc{byTime[0]}
+			for i := len(byTime) - 1; i >= half; i-- {
+				second = append(second, byTime[i])
+			}
+			if err := st.Bulk(byTime[:half]); err != nil {
+				return res, evid.Failf("bulk-error", "%v", err)
+			}
+			st.WaitIdle()
+			if err := st.Bulk(second); err != nil {
+				return res, evid.Failf("bulk-error", "%v", err)
+			}
+			st.WaitIdle()
+			if fi < len(fracs)-1 || !c.LastActive {
+				st.Seal()
+			}
+			res.Labels = append(res.Labels, "bulk-with-a-repeated-document-and-newer-ones")
+			continue
+		}
 		for pos := 0; pos < len(fs.docs); pos += 2000 {
 			if err := st.Bulk(fs.docs[pos:min(pos+2000, len(fs.docs))]); err != nil {
 				return res, evid.Failf("bulk-error", "%v", err)
